@@ -65,6 +65,15 @@ def run(tier, seed, scale=1.0):
     r5.counters = {"sendcut_" + k: v for k, v in r5.counters.items() if k in ("cases", "requests", "transmissions", "sendcut_fired")}
     r5.fps = set()
     res.merge(r5)
+    # completion callbacks that take a second or two of (virtual) time before they start follow-up requests, answers
+    # that live a second or two, the cache on: only the memory / exactly-once monitors are meaningful there (time moving
+    # inside a callback is outside what the other monitors model), their keys are kept and everything else dropped
+    n_sl = int((6000 if tier == "quick" else 400000) * scale)
+    r6 = vdriver.explore(common.spec("simnet", "hostile-slowcb", seed), n_sl, chunk=max(100, n_sl // 64), chunk_timeout=600)
+    r6.violations = [v for v in r6.violations if v["key"].startswith(("asan:", "ubsan:", "once:", "abort:", "hang:", "lsan:"))]
+    r6.counters = {"slowcb_" + k: v for k, v in r6.counters.items() if k in ("cases", "requests", "transmissions", "callback_took_its_time", "note.callback_took_its_time")}
+    r6.fps = set()
+    res.merge(r6)
     return common.finish(PROP, tier, seed, "exploration", res, own, RULE, t0,
                          min_conclusive=int(5000 * scale),
                          assumptions=["virtual socket layer and servers model a UDP/TCP network faithfully enough",
